@@ -126,3 +126,16 @@ def scanner_shape(run, ctx):
         if ce.replace("let mut quoted", "let quoted") != want:
             run.violation(fam, label, "escape", H.where(es), "Expander::escape must double every substitution character (the inverse of the `doubled` scanner case) and borrow otherwise, found %s" % ce[:200])
     run.ok(fam, label, H.where(fn), n, "scanner alternatives in documented order; escape doubles sub_char")
+
+
+def id_char_rule(run, ctx):
+    fam, label = "EXPAND", "id-char"
+    fn = S.get_fn(run, ctx, "parse::is_id_char", fam, label)
+    if fn is None:
+        return
+    c = H.canon(H.peel(fn["body"]))
+    P = fn["params"][0].get("name")
+    if c not in ("(%s.is_alphanumeric() || ('_' == %s))" % (P, P), "(('_' == %s) || %s.is_alphanumeric())" % (P, P)):
+        run.violation(fam, label, "shape", H.where(fn), "identifier characters are the (Unicode) alphanumerics and `_` -- group names, `$name` and `${name}` are scanned with this predicate (longest identifier); found %s" % c)
+    else:
+        run.ok(fam, label, H.where(fn), 1, c)
